@@ -1,10 +1,13 @@
 SPECIFICATION TraceSpec
 CONSTANTS
   FixNilRecover = TRUE
+  TxDoneIsError = TRUE
   MaxArgs = 0
   MaxSteps = 0
   MaxEx = 0
   Outs = {}
+  Fins = {}
+  CancelOn = FALSE
 INVARIANTS TypeOK FinishedOnce CommitIffAllOk NoLaterStep NoBeginForEmpty RetRight GoneOnlyByExit
 CONSTRAINT Mark
 POSTCONDITION Accepted
